@@ -135,7 +135,7 @@ func c20RefLagrange0(xs, ys []uint8) uint8 {
 type c20Tape struct {
 	buf  []byte
 	pos  int
-	over int // bytes served (as zero) beyond the end of the tape
+	over int // bytes served (filler) beyond the end of the tape
 }
 
 func (r *c20Tape) Read(p []byte) (int, error) {
@@ -143,7 +143,9 @@ func (r *c20Tape) Read(p []byte) (int, error) {
 		if r.pos < len(r.buf) {
 			p[i] = r.buf[r.pos]
 		} else {
-			p[i] = 0
+			// beyond the enumerated tape: a fixed NON-ZERO filler, so that code which redraws
+			// until some condition holds terminates; the overrun is counted (see split)
+			p[i] = 1
 			r.over++
 		}
 		r.pos++
@@ -226,6 +228,8 @@ type c20Run struct {
 	deadline time.Time
 	stopped  bool
 	shuffles map[int]*c20Shuffle
+	splits   int
+	overruns int
 }
 
 func (h *c20Run) mine() bool {
@@ -284,8 +288,16 @@ func (h *c20Run) split(sh *c20Shuffle, secret []byte, n, t int, tape []byte, buf
 		}()
 		shares, err = Split(secret, n, t)
 	})
+	h.splits++
 	if rd.over > 0 {
-		h.t.Fatalf("harness: Split(len=%d,n=%d,t=%d) consumed %d random bytes, more than the %d+%d the tape enumeration controls; the enumeration would not cover all randomness", len(secret), n, t, rd.pos, len(sh.prefix), len(tape))
+		// The amount of randomness consumed depends on the tape's VALUES (the same call with
+		// another tape stays inside it): coefficients are then not a fixed function of tape
+		// positions (e.g. a value is redrawn until it passes a test). The run is kept - the
+		// tape-dependence and counting oracles judge what it produced - and counted. Only
+		// when EVERY split overruns is the enumeration itself inadequate (harness error,
+		// decided by the caller through overrunsAll).
+		h.overruns++
+		h.res.Add("splits_consuming_randomness_beyond_the_tape", 1)
 	}
 	return shares, rd.pos, panicked, err
 }
@@ -1323,6 +1335,9 @@ func TestVerifC20Shamir(t *testing.T) {
 		t0 := time.Now()
 		sec.f()
 		res.Add("cpu_ms_"+sec.name, time.Since(t0).Milliseconds())
+	}
+	if h.splits > 0 && h.overruns == h.splits {
+		t.Fatalf("harness: every one of the %d Split calls consumed more randomness than the enumerated tape holds; the enumeration does not control the randomness of this implementation", h.splits)
 	}
 	res.Bound("n_t", "all 2<=t<=n<=6 exhaustively; (n,t) up to (255,255) in the large section")
 	if i, _ := vout.Shard(); i == 0 {
